@@ -238,7 +238,11 @@ def judge_call(acc, call, x, history=None, prefix=None, hkey=None, fv_bad=False,
     acc.case(nontrivial=(t, d, p, hkey) if d else None, outcome=(feat, p, hkey, why is None))
     if why is None:
         return False
-    key = feat if (p == "fv" or fv_bad) else "%s:%s" % (p, feat)
+    # one root cause, one key: another path is only named when format_value itself was right for this (type, data)
+    fvbad = acc.__dict__.setdefault("_fvbad", set())
+    if p == "fv":
+        fvbad.add((t, d))
+    key = feat if (p == "fv" or fv_bad or (t, d) in fvbad) else "%s:%s" % (p, feat)
     w = {"history": list(history) if history else [call]}
     if hkey:
         w["_hkey"] = hkey
@@ -267,6 +271,16 @@ def _product(ctx, ax, shard, acc, stop=None):
     datas = _data(ctx, shard)
     good = [d for d in datas if resval.judged(t, d)]
     tier = ctx.tier
+    for n, d in enumerate(datas):
+        fv_bad = False
+        for p in ("fv", "ref", "table"):
+            call = [p, t, d]
+            x = do_call(ax, call)
+            if stop is None or stop == (n, p):
+                bad = judge_call(acc, call, x, prefix={"shard": list(shard), "tier": tier, "upto": n, "p": p}, fv_bad=fv_bad)
+                fv_bad = fv_bad or (bad and p == "fv")
+        if stop is not None and stop[1] != "axml" and stop[0] == n:
+            return
     for i in range(0, len(good), 16):
         chunk = good[i:i + 16]
         items = [[t, d] for d in chunk]
@@ -277,16 +291,6 @@ def _product(ctx, ax, shard, acc, stop=None):
                 judge_call(acc, ["axml", items, k], x, prefix={"shard": list(shard), "tier": tier, "upto": n, "p": "axml"},
                            alone=[["axml", [[t, chunk[k]]], 0]], hkey="axml-batch:" + resval.feature(t, chunk[k]))
         if stop is not None and stop[1] == "axml" and stop[0] < i + 16:
-            return
-    for n, d in enumerate(datas):
-        fv_bad = False
-        for p in ("fv", "ref", "table"):
-            call = [p, t, d]
-            x = do_call(ax, call)
-            if stop is None or stop == (n, p):
-                bad = judge_call(acc, call, x, prefix={"shard": list(shard), "tier": tier, "upto": n, "p": p}, fv_bad=fv_bad)
-                fv_bad = fv_bad or (bad and p == "fv")
-        if stop is not None and stop[0] == n:
             return
 
 
